@@ -25,6 +25,14 @@ RULE_TEXT = ("one obligation per (operation, table cell): sink kind, channel obj
              "assertion dominance; distinct = distinct instance keys; non-trivial = the anchor function was found and read")
 
 
+# operations that act at most once per object: the only condition their emission may stand under is the object's own latch
+ONCE = {
+    'channel::Channel::close': ('unless(self.closed)',),
+    'consumer::Consumer::cancel': ('unless(std::cell::Cell::get(self.cancelled))', 'unless(std::cell::Cell::replace(self.cancelled, true))'),
+    'connection::Connection::close': ('case(std::option::Option::take(self.join_handle) ~ Some(_))',),
+}
+
+
 def short(fn):
     return fn
 
@@ -59,6 +67,11 @@ def r121(ctx):
                 continue
             em = wire[0]
             esite = ctx.site(em.ev.fn or fnp, em.ev.node)
+            cond = [x for g in em.ev.guards if g[2] != 'inline' for x in S.guard_strs(g)]
+            early = [S.show(e.term)[:80] for e in events if e.idx < em.ev.idx and e.kind == 'ret']
+            latch = ONCE.get(fnp, ())
+            r.check('%s:unconditional' % fnp, (not cond and not early) or (len(cond) == 1 and cond[0] in latch), esite, built={'under': cond, 'returns-before': early},
+                    expected='the method is emitted on every call, whatever the argument values', why='an operation that sometimes sends nothing does not do what its arguments say')
             r.eq('%s:sink' % fnp, em.sink, row['sink'], esite, why='wait mode (call waits for the reply, nowait does not)')
             r.eq('%s:on' % fnp, em.on, row['on'], esite, why="the method must travel on the object's own channel")
             r.eq('%s:method' % fnp, '%s%s' % (em.cls, em.method), '%s%s' % (row['cls'], row['method']), esite)
